@@ -32,6 +32,10 @@ type atomicScn struct {
 	Delay       int      `json:"delay"` // kill: microseconds to wait after the last unit before SIGKILL
 	SnapOnDeath bool     `json:"snap_on_death"`
 	Long        bool     `json:"long"` // the second file has a 250-byte name (temp-file name creation is strained)
+	// Delete: the receiver runs with --delete; the destination also holds extraneous entries and a directory "f0"
+	// with an up-to-date listed child, and the first file is named "f0.x" - a listed sibling that sorts BETWEEN the
+	// directory and its child in the file list but AFTER the child in a directory walk
+	Delete bool `json:"delete"`
 }
 
 type atomicEvent struct {
@@ -83,6 +87,9 @@ func atomicFiles(s *atomicScn) []atomicFile {
 		tail := make([]byte, 50)
 		r.Read(tail)
 		f := atomicFile{name: fmt.Sprintf("f%d", i+1)}
+		if s.Delete && i == 0 {
+			f.name = "f0.x"
+		}
 		if s.Long && i == 1 {
 			f.name += strings.Repeat("y", 248)
 		}
@@ -130,7 +137,7 @@ func atomicSnapshot(dest string, files []atomicFile) (snap []string, lnk string,
 	default:
 		lnk = "other"
 	}
-	listed := map[string]bool{"l": true}
+	listed := map[string]bool{"l": true, "f0": true, "zz-extra": true} // (f0, zz-extra: only in --delete scenarios; not temp files)
 	for _, f := range files {
 		listed[f.name] = true
 	}
@@ -234,6 +241,19 @@ func atomicHandler(w *workerCtx, line []byte) (any, error) {
 	for _, f := range files {
 		fl.Entries = append(fl.Entries, wirekit.Entry{Name: f.name, Size: int64(len(f.new)), Mtime: 2_000_000, Mode: wirekit.SIFREG | 0o644})
 	}
+	rflags := "-rlt"
+	if s.Delete {
+		same := []byte("up to date")
+		os.MkdirAll(filepath.Join(dest, "f0"), 0o755)
+		os.WriteFile(filepath.Join(dest, "f0", "c"), same, 0o644)
+		os.WriteFile(filepath.Join(dest, "f0", "zz"), []byte("extraneous"), 0o644)
+		os.WriteFile(filepath.Join(dest, "zz-extra"), []byte("extraneous"), 0o644)
+		now := time.Unix(2_000_000, 0)
+		os.Chtimes(filepath.Join(dest, "f0", "c"), now, now)
+		fl.Entries = append(fl.Entries,
+			wirekit.Entry{Name: "f0", Size: 4096, Mtime: 2_000_000, Mode: wirekit.SIFDIR | 0o755},
+			wirekit.Entry{Name: "f0/c", Size: int64(len(same)), Mtime: 2_000_000, Mode: wirekit.SIFREG | 0o644})
+	}
 	fl.Entries = append(fl.Entries, wirekit.Entry{Name: "l", Size: 5, Mtime: 2_000_000, Mode: wirekit.SIFLNK | 0o777, Link: "t-new"})
 
 	var p *drv.RecvPeer
@@ -244,12 +264,20 @@ func atomicHandler(w *workerCtx, line []byte) (any, error) {
 			return nil, err
 		}
 		mod := &rsyncd.Module{Name: "m", Path: dest, Writable: true}
-		p = drv.StartServerReceiver(srv, mod, []string{"--server", "-rlt", ".", "/"}, -1, -1, nil)
-		if err = p.ClientHandshake(false); err != nil {
+		sargs := []string{"--server", rflags}
+		if s.Delete {
+			sargs = append(sargs, "--delete")
+		}
+		p = drv.StartServerReceiver(srv, mod, append(sargs, ".", "/"), -1, -1, nil)
+		if err = p.ClientHandshake(s.Delete); err != nil {
 			return nil, fmt.Errorf("handshake: %w", err)
 		}
 	} else {
-		p, err = drv.StartClientReceiver([]string{"-rlt"}, dest, nil, -1, -1, nil)
+		cargs := []string{rflags}
+		if s.Delete {
+			cargs = append(cargs, "--delete")
+		}
+		p, err = drv.StartClientReceiver(cargs, dest, nil, -1, -1, nil)
 		if err != nil {
 			return nil, err
 		}
@@ -279,12 +307,24 @@ func atomicHandler(w *workerCtx, line []byte) (any, error) {
 	p.In = &wirekit.R{R: cr}
 
 	p.Out.EncodeList(fl, lo, wirekit.NoCompression)
+	var sortedNames []string
+	for _, e := range fl.SortedEntries() {
+		sortedNames = append(sortedNames, e.Name)
+	}
 	unitsDone := 0
 	started := false
 	rs := &wirekit.RefSender{In: p.In, Out: p.Out, Seed: p.Seed, Batch: s.Batch}
 	rs.Answer = func(req *wirekit.Request) (*wirekit.Answer, error) {
-		k := int(req.Idx) - 1 // "." is index 0
-		if k < 0 || k >= len(files) {
+		// the receiver numbers the entries in bytewise name order
+		k := -1
+		if req.Idx >= 0 && int(req.Idx) < len(sortedNames) {
+			for i, f := range files {
+				if f.name == sortedNames[req.Idx] {
+					k = i
+				}
+			}
+		}
+		if k < 0 {
 			return nil, fmt.Errorf("unexpected request for index %d", req.Idx)
 		}
 		f := files[k]
